@@ -23,6 +23,7 @@ import ast
 from .. import Undecided
 from ..expr import canon, lin, call_name, unparse, negate, conj, kwarg
 from ..model import stmt_text
+from ..fold import fold, Unknown, select_paths
 
 EXPLANATION = __doc__
 LEVEL_RULE = 'one obligation per table entry, per fold case (4 spellings x 2 byte orders + default), per codec parameter and per value flow'
@@ -44,197 +45,102 @@ def gtexts(p):
     return out
 
 
-class Unknown(Exception):
-    pass
-
-
-def fold(e, env):
-    """evaluate a side-effect-free expression over a finite environment
-    (attribute chains -> values).  No repository code runs."""
-    if isinstance(e, ast.Constant):
-        return e.value
-    if isinstance(e, (ast.Attribute, ast.Name)):
-        k = canon(e)
-        if k in env:
-            return env[k]
-        raise Unknown(k)
-    if isinstance(e, ast.Tuple):
-        return tuple(fold(x, env) for x in e.elts)
-    if isinstance(e, ast.List):
-        return [fold(x, env) for x in e.elts]
-    if isinstance(e, ast.BoolOp):
-        if isinstance(e.op, ast.And):
-            v = True
-            for x in e.values:
-                v = fold(x, env)
-                if not v:
-                    return v
-            return v
-        v = False
-        for x in e.values:
-            v = fold(x, env)
-            if v:
-                return v
-        return v
-    if isinstance(e, ast.UnaryOp) and isinstance(e.op, ast.Not):
-        return not fold(e.operand, env)
-    if isinstance(e, ast.IfExp):
-        return fold(e.body, env) if fold(e.test, env) else fold(e.orelse, env)
-    if isinstance(e, ast.Compare):
-        left = fold(e.left, env)
-        for op, r in zip(e.ops, e.comparators):
-            right = fold(r, env)
-            if isinstance(op, ast.Eq): ok = left == right
-            elif isinstance(op, ast.NotEq): ok = left != right
-            elif isinstance(op, ast.In): ok = left in right
-            elif isinstance(op, ast.NotIn): ok = left not in right
-            elif isinstance(op, ast.Is): ok = left is right
-            elif isinstance(op, ast.IsNot): ok = left is not right
-            else:
-                raise Unknown(type(op).__name__)
-            if not ok:
-                return False
-            left = right
-        return True
-    if isinstance(e, ast.Call) and isinstance(e.func, ast.Attribute) and e.func.attr in ('lower', 'upper') and not e.args:
-        v = fold(e.func.value, env)
-        return getattr(v, e.func.attr)()
-    raise Unknown(type(e).__name__)
-
-
 def check_compile(ctx, ci, comp):
+    """Int._compile over its whole configuration space.  For every spelling of the byte order
+    (given or taken from the class options), host byte order, width and signedness, the path
+    summary whose guards fold to true is selected and the values it stores are folded:
+    is_bigendian, the strategy pair installed, and the format handed to struct.Struct."""
     repo = ctx.repo
-    w = repo.walker(max_paths=ctx.max_paths)
+    w = repo.walker(max_paths=ctx.max_paths, inline_depth=ctx.depth, keep={'_compile_impl'})
     paths = [p for p in w.paths(comp.node, cls=ci) if not p.raises()]
     ctx.unit('paths', len(paths))
-    # ---------------------------------------------------------------- (b)
-    rule = 'R9-endianness-fold'
-    exprs = {}
-    defaults = {}
-    for p in paths:
+    consts = {}
+    for c in reversed(repo.mro(ci)):
+        for k, v in c.attrs.items():
+            consts['self.%s' % k] = v
+            consts['%s.%s' % (c.name, k)] = v
+    # which installed unpack strategies decode through struct, which through int.from_bytes
+    kind_of = {}
+    for s_ in repo.strategies(ci):
+        if s_['unpack'] is None:
+            continue
+        calls = [call_name(n) or '' for n in ast.walk(s_['unpack'].node) if isinstance(n, ast.Call)]
+        kind_of[s_['unpack'].node.name] = 'arbitrary' if 'int.from_bytes' in calls else 'struct'
+
+    def finals(p):
+        out = {}
         for e in p.effects:
-            if e.kind == 'store_attr' and canon(e.obj) == 'self' and e.name == 'is_bigendian':
-                exprs[canon(e.value)] = (e.value, e.lineno, gtexts(p))
-            if e.kind == 'store_attr' and canon(e.obj) == 'self' and e.name == 'endianness':
-                defaults[canon(e.value)] = (e.value, e.lineno, gtexts(p))
-    if not exprs:
-        ctx.violation(rule, comp, 'Int._compile', 'is_bigendian is never computed', comp.node.lineno, clause='b')
-    want = {'big': (True, True), 'network': (True, True), 'little': (False, False), 'local': (True, False)}
-    for txt, (e, line, gt) in exprs.items():
-        # on the path where the default was applied, self.endianness was substituted by the default expr
-        for spelling, (w_big, w_little) in sorted(want.items()):
-            for order, wanted in (('big', w_big), ('little', w_little)):
-                env = {'self.endianness': spelling, 'sys.byteorder': order}
-                st = 'is_bigendian for endianness=%r on a %s-endian host' % (spelling, order)
-                if 'bisturi_conf.get' in txt:
-                    # path taken when endianness is None: evaluate with the class default in place
-                    e2 = _replace_conf_get(e, spelling)
-                else:
-                    e2 = e
-                try:
-                    got = bool(fold(e2, env))
-                except Unknown as u:
-                    ctx.undecided(rule, comp, st, 'cannot fold %s (%s)' % (canon(e)[:80], u), line, clause='b')
-                    continue
-                if got == wanted:
-                    ctx.holds(rule, comp, st + ' -> %s' % got, 'matches the documented meaning', line, clause='b')
-                else:
-                    ctx.violation(rule, comp, st + ' -> %s' % got, 'expected %s: %s' % (wanted, canon(e)[:120]), line, clause='b')
-    # default when omitted
-    okd = False
-    for txt, (e, line, gt) in defaults.items():
-        if '(self.endianness is None)' in gt:
-            st = 'endianness omitted -> %s' % txt
-            if isinstance(e, ast.Call) and canon(e.func) == 'bisturi_conf.get' and len(e.args) == 2 and isinstance(e.args[0], ast.Constant) \
-                    and e.args[0].value == 'endianness' and isinstance(e.args[1], ast.Constant) and e.args[1].value == 'big':
-                ctx.holds(rule, comp, st, 'class-level option, big endian when absent', line, clause='b')
-            else:
-                ctx.violation(rule, comp, st, "an omitted endianness must become bisturi_conf.get('endianness', 'big')", line, clause='b')
-            okd = True
-    if not okd:
-        ctx.violation(rule, comp, 'endianness omitted', 'the class-level endianness option is not consulted when the field gives none', comp.node.lineno, clause='b')
-    # ---------------------------------------------------------------- (a)
-    rule = 'R9-struct-codes'
-    table = None
-    for n in ast.walk(comp.node):
-        if isinstance(n, ast.Dict) and n.keys and all(isinstance(k, ast.Constant) and isinstance(k.value, int) for k in n.keys) \
-                and all(isinstance(v, ast.Constant) and isinstance(v.value, str) for v in n.values):
-            table = n
-    if table is None:
-        ctx.undecided(rule, comp, 'struct code table', 'no {width: code} table found in Int._compile', comp.node.lineno, clause='a')
-    else:
-        keys = []
-        for k, v in zip(table.keys, table.values):
-            keys.append(k.value)
-            st = 'width %d -> struct code %r' % (k.value, v.value)
-            code = v.value
-            if code not in STD:
-                ctx.violation(rule, comp, st, 'not a struct integer code', table.lineno, clause='a')
-            elif STD[code] != k.value:
-                ctx.violation(rule, comp, st, 'code %r has standard size %d, not %d' % (code, STD[code], k.value), table.lineno, clause='a')
-            elif not code.isupper():
-                ctx.violation(rule, comp, st, 'the table must hold the unsigned (upper-case) code; signedness is applied with lower()', table.lineno, clause='a')
-            else:
-                ctx.holds(rule, comp, st, 'standard size %d, unsigned' % STD[code], table.lineno, clause='a')
-        # the widths routed to the primitive path are exactly the keys
-        prim = [p for p in paths if any(e.kind == 'store_attr' and e.name == 'struct_obj' for e in p.effects)]
-        conds = set()
-        for p in prim:
-            for g in gtexts(p):
-                if g.startswith('(self.byte_count in '):
-                    conds.add(g)
-        for g in conds:
+            if e.kind == 'store_attr' and canon(e.obj) == 'self':
+                out[e.name] = e.value
+        return out
+
+    def decide(rule, label, env, want, get, clause):
+        sel = select_paths(paths, env, consts)
+        if not sel:
+            ctx.violation(rule, comp, label, 'no path of Int._compile handles this configuration', comp.node.lineno, clause=clause)
+            return
+        got = set()
+        for p in sel:
             try:
-                tup = ast.literal_eval(g[len('(self.byte_count in '):-1])
-            except Exception:
-                ctx.undecided(rule, comp, g, 'cannot read the primitive-width test', comp.node.lineno, clause='a')
-                continue
-            if sorted(tup) == sorted(keys):
-                ctx.holds(rule, comp, 'primitive widths %s' % (sorted(tup),), 'exactly the keys of the code table', comp.node.lineno, clause='a')
-            else:
-                ctx.violation(rule, comp, 'primitive widths %s vs table keys %s' % (sorted(tup), sorted(keys)), 'a width is sent to the struct path without a code (KeyError) or a width with a code is not', comp.node.lineno, clause='a')
-        if not conds:
-            ctx.undecided(rule, comp, 'primitive-width test', 'no "self.byte_count in (...)" test selects the struct path', comp.node.lineno, clause='a')
-        # signedness and prefix on the primitive paths
-        for p in prim:
-            gt = gtexts(p)
-            signed = 'self.is_signed' in gt
-            unsigned = 'not self.is_signed' in gt
-            code_v = [e for e in p.effects if e.kind == 'store_attr' and e.name == 'struct_code' and canon(e.obj) == 'self']
-            obj_v = [e for e in p.effects if e.kind == 'store_attr' and e.name == 'struct_obj' and canon(e.obj) == 'self']
-            if not code_v or not obj_v:
-                continue
-            cv = code_v[-1].value
-            lowered = isinstance(cv, ast.Call) and isinstance(cv.func, ast.Attribute) and cv.func.attr == 'lower'
-            base = cv.func.value if lowered else cv
-            st = 'struct_code on the %s path = %s' % ('signed' if signed else 'unsigned' if unsigned else '?', canon(cv))
-            is_lookup = isinstance(base, ast.Subscript) and isinstance(base.value, ast.Dict) and canon(base.slice) == 'self.byte_count'
-            if not is_lookup:
-                ctx.violation(rule, comp, st, 'the code is not table[self.byte_count]', code_v[-1].lineno, clause='a')
-            elif signed and not lowered:
-                ctx.violation(rule, comp, st, 'a signed field keeps the unsigned code', code_v[-1].lineno, clause='a')
-            elif unsigned and lowered:
-                ctx.violation(rule, comp, st, 'an unsigned field gets the signed code', code_v[-1].lineno, clause='a')
-            elif not (signed or unsigned):
-                ctx.violation(rule, comp, st, 'the code does not depend on is_signed', code_v[-1].lineno, clause='a')
-            else:
-                ctx.holds(rule, comp, st, 'lower-case iff signed', code_v[-1].lineno, clause='a')
-            ov = obj_v[-1].value
-            st = 'struct_obj = %s' % canon(ov)[:150]
-            if call_name(ov) not in ('struct.Struct', 'Struct') or not ov.args:
-                ctx.violation(rule, comp, st, 'struct_obj is not a struct.Struct', obj_v[-1].lineno, clause='a')
-                continue
-            fmt = ov.args[0]
-            okp = isinstance(fmt, ast.BinOp) and isinstance(fmt.op, ast.Add) and isinstance(fmt.left, ast.IfExp) \
-                and canon(fmt.left.test) == 'self.is_bigendian' and isinstance(fmt.left.body, ast.Constant) and fmt.left.body.value in ('>', '!') \
-                and isinstance(fmt.left.orelse, ast.Constant) and fmt.left.orelse.value == '<' and canon(fmt.right) == canon(cv)
-            # is_bigendian may have been substituted by its defining expression on this path
-            if not okp and isinstance(fmt, ast.BinOp) and isinstance(fmt.left, ast.IfExp) and isinstance(fmt.left.body, ast.Constant) and isinstance(fmt.left.orelse, ast.Constant):
-                okp = fmt.left.body.value in ('>', '!') and fmt.left.orelse.value == '<' and canon(fmt.left.test) in exprs and canon(fmt.right) == canon(cv)
-            if okp:
-                ctx.holds(rule, comp, st[:120], "'>' if big endian else '<', then the code: standard size, no alignment", obj_v[-1].lineno, clause='a')
-            else:
-                ctx.violation(rule, comp, st[:160], "the struct format must be ('>' if is_bigendian else '<') + struct_code", obj_v[-1].lineno, clause='a')
+                got.add(get(finals(p), env))
+            except Unknown as u:
+                ctx.undecided(rule, comp, label, 'cannot fold (%s)' % u, comp.node.lineno, clause=clause)
+                return
+        if got == {want}:
+            ctx.holds(rule, comp, '%s -> %s' % (label, want if not isinstance(want, tuple) else ' / '.join(map(str, want))), 'as documented', comp.node.lineno, clause=clause)
+        else:
+            ctx.violation(rule, comp, '%s -> %s' % (label, sorted(map(str, got))), 'expected %s' % (want,), comp.node.lineno, clause=clause)
+
+    base = {'self.byte_count': 4, 'self.is_signed': False, 'bisturi_conf': {}}
+
+    def big(fin, env):
+        if 'is_bigendian' not in fin:
+            raise Unknown('is_bigendian is never stored on this path')
+        return bool(fold(fin['is_bigendian'], env, consts))
+
+    # ---------------------------------------------------------------- (b) endianness
+    rule = 'R9-endianness-fold'
+    want = {'big': (True, True), 'network': (True, True), 'little': (False, False), 'local': (True, False)}
+    for spelling, (w_big, w_little) in sorted(want.items()):
+        for order, wanted in (('big', w_big), ('little', w_little)):
+            decide(rule, 'is_bigendian for endianness=%r on a %s-endian host' % (spelling, order),
+                   dict(base, **{'self.endianness': spelling, 'sys.byteorder': order}), wanted, big, 'b')
+            # the same spelling given as the class-level option, the field giving none
+            decide(rule, 'is_bigendian for endianness omitted, class option %r, %s-endian host' % (spelling, order),
+                   dict(base, **{'self.endianness': None, 'sys.byteorder': order, 'bisturi_conf': {'endianness': spelling}}), wanted, big, 'b')
+    for order in ('big', 'little'):
+        decide(rule, 'is_bigendian for endianness omitted and no class option, %s-endian host' % order,
+               dict(base, **{'self.endianness': None, 'sys.byteorder': order}), True, big, 'b')
+    # ---------------------------------------------------------------- (a) strategy routing and struct codes
+    rule = 'R9-struct-codes'
+
+    def strategy(fin, env):
+        v = fin.get('unpack')
+        if v is None or not isinstance(v, ast.Attribute):
+            raise Unknown('no unpack strategy installed on this path')
+        return kind_of.get(v.attr, 'unknown strategy %s' % v.attr)
+
+    def fmt(fin, env):
+        structs = [v for v in fin.values() if isinstance(v, ast.Call) and call_name(v) in ('struct.Struct', 'Struct')]
+        if len(structs) != 1 or not structs[0].args:
+            raise Unknown('%d struct.Struct objects stored on this path' % len(structs))
+        f = fold(structs[0].args[0], env, consts)
+        if not isinstance(f, str) or len(f) != 2:
+            return 'format %r' % (f,)
+        prefix, code = f[0], f[1]
+        return ('standard size, %s' % ('big endian' if prefix in '>!' else 'little endian' if prefix == '<' else 'NATIVE alignment/size (%r)' % prefix),
+                '%d bytes' % STD.get(code, -1), 'signed' if code.islower() else 'unsigned')
+
+    for n in (1, 2, 3, 4, 5, 6, 7, 8, 9, 16):
+        env = dict(base, **{'self.endianness': 'big', 'sys.byteorder': 'little', 'self.byte_count': n})
+        decide(rule, 'Int(%d) is compiled to the %s strategy' % (n, 'struct' if n in (1, 2, 4, 8) else 'arbitrary-width'), env,
+               'struct' if n in (1, 2, 4, 8) else 'arbitrary', strategy, 'a')
+    for n in (1, 2, 4, 8):
+        for signed in (False, True):
+            for spelling in ('big', 'little'):
+                env = dict(base, **{'self.endianness': spelling, 'sys.byteorder': 'little' if spelling == 'big' else 'big', 'self.byte_count': n, 'self.is_signed': signed})
+                decide(rule, 'struct format of Int(%d, signed=%s, %s endian)' % (n, signed, spelling), env,
+                       ('standard size, %s endian' % spelling, '%d bytes' % n, 'signed' if signed else 'unsigned'), fmt, 'a')
 
 
 def _replace_conf_get(e, value):
@@ -255,9 +161,18 @@ def check_codecs(ctx, ci):
     strat = repo.strategies(ci)
     BO = "('big' if self.is_bigendian else 'little')"
     GETV = canon(ast.parse('getattr(pkt, self.field_name)', mode='eval').body)
+    KEEP = ('is_bigendian', 'byte_count', 'is_signed', 'field_name', 'endianness', 'default', 'base')
+    is_struct = lambda x: isinstance(x, ast.Call) and call_name(x) in ('struct.Struct', 'Struct')
     for s in strat:
         up, pk = s['unpack'], s['pack']
         ctx.unit('strategy_pairs')
+        # attributes _compile computes for this strategy (the struct object, a cached byte order,
+        # ...) are read through their definitions
+        w.const_heap = repo.strategy_consts(s, keep=KEEP)
+        # _compile may have cached the byte order: there is_bigendian appears through its own definition
+        bos = {BO}
+        if s.get('defs', {}).get('is_bigendian') is not None:
+            bos.add(canon(ast.IfExp(test=s['defs']['is_bigendian'], body=ast.Constant(value='big'), orelse=ast.Constant(value='little'))))
         # ---- unpack: stored value is the decoder's result
         for p in w.paths(up.node, cls=ci):
             if p.raises() or any(t.startswith("caught(") for t in p.guard_texts()):
@@ -269,7 +184,7 @@ def check_codecs(ctx, ci):
             v = st_[-1].value
             st = '%s stores %s' % (up.qual, canon(v)[:150])
             if isinstance(v, ast.Subscript) and isinstance(v.slice, ast.Constant) and v.slice.value == 0 and isinstance(v.value, ast.Call) \
-                    and canon(v.value.func) == 'self.struct_obj.unpack':
+                    and isinstance(v.value.func, ast.Attribute) and v.value.func.attr == 'unpack' and is_struct(v.value.func.value):
                 arg = v.value.args[0] if v.value.args else None
                 if isinstance(arg, ast.Subscript) and isinstance(arg.slice, ast.Slice) and lin(ast.BinOp(left=arg.slice.upper, op=ast.Sub(), right=arg.slice.lower)) == {'self.byte_count': 1}:
                     ctx.holds('R1-int-codec', up, st, 'struct decode of exactly byte_count bytes, result stored unmodified', st_[-1].lineno, clause='d')
@@ -280,7 +195,7 @@ def check_codecs(ctx, ci):
                 sg = kwarg(v, 'signed')
                 arg = v.args[0] if v.args else None
                 ok = True
-                if bo is None or canon(bo) != BO:
+                if bo is None or canon(bo) not in bos:
                     ok = ctx.violation('R1-int-codec', up, st, "byteorder must be 'big' if self.is_bigendian else 'little' (got %s)" % (canon(bo) if bo is not None else 'default'), st_[-1].lineno, clause='c')
                 if sg is None or canon(sg) != 'self.is_signed':
                     ok = ctx.violation('R1-int-codec', up, st, 'signed must be self.is_signed (got %s): negative values decode as large positives' % (canon(sg) if sg is not None else 'default False'), st_[-1].lineno, clause='c')
@@ -304,7 +219,7 @@ def check_codecs(ctx, ci):
                 continue
             v = apps[0].call.args[0]
             st = '%s appends %s' % (pk.qual, canon(v)[:150])
-            if isinstance(v, ast.Call) and canon(v.func) == 'self.struct_obj.pack':
+            if isinstance(v, ast.Call) and isinstance(v.func, ast.Attribute) and v.func.attr == 'pack' and is_struct(v.func.value):
                 if len(v.args) == 1 and canon(v.args[0]) == GETV:
                     ctx.holds('R1-int-codec', pk, st, 'the packet value flows unmodified into struct.pack (raises when out of range)', apps[0].lineno, clause='d')
                 else:
@@ -318,7 +233,7 @@ def check_codecs(ctx, ci):
                 sg = kwarg(v, 'signed')
                 if width is None or canon(width) != 'self.byte_count':
                     ok = ctx.violation('R1-int-codec', pk, st, 'width must be self.byte_count', apps[0].lineno, clause='c')
-                if bo is None or canon(bo) != BO:
+                if bo is None or canon(bo) not in bos:
                     ok = ctx.violation('R1-int-codec', pk, st, "byteorder must be 'big' if self.is_bigendian else 'little' (got %s)" % (canon(bo) if bo is not None else 'default'), apps[0].lineno, clause='c')
                 if sg is None or canon(sg) != 'self.is_signed':
                     ok = ctx.violation('R1-int-codec', pk, st, 'signed must be self.is_signed (got %s)' % (canon(sg) if sg is not None else 'default False'), apps[0].lineno, clause='c')
@@ -328,6 +243,7 @@ def check_codecs(ctx, ci):
                 ctx.violation('R1-int-codec', pk, st, 'the chunk appended is not the unmodified result of struct.pack / int.to_bytes', apps[0].lineno, clause='d')
             if p.ret() is None or canon(p.ret()) != 'fragments':
                 pass
+    w.const_heap = {}
 
 
 def check_ctor(ctx, ci):
